@@ -202,7 +202,7 @@ def orcc_leg(scratch, env):
 def cross_leg(scratch, env, tier):
     """32-bit NEON and MIPS: listing against code bytes with clang's integrated assembler (lib/vcross.py)."""
     exe = vlib.build_engine("xasm", "plain")
-    levels = "L1,L4,L5,L6" if tier == "quick" else "L1,L2,L3,L4,L5,L6"
+    levels = "L1,L2,L3,L4,L5,L6"		# cheap (seconds): the same levels in both tiers
     d = os.path.join(scratch, "cross")
     os.makedirs(d)
     nsh = 16
